@@ -217,7 +217,31 @@ func scenarioSession() *c04Scenario {
 // ---- scenario: DKG (Gennaro / Canetti) ----
 
 func scenarioDKG(proto string) *c04Scenario {
-	s := &c04Scenario{name: proto, only: []string{"dkg/"}, maxLeaves: 40}
+	return scenarioDKGSpec(proto, proto, func() (*acSpec, error) { return genFixedThreshold(2, c04IDs) })
+}
+
+// cnfSingletons: the CNF structure whose maximal unqualified sets are the three
+// singletons (any two holders are qualified); every holder owns two MSP rows, so every
+// share, sub-share and public share has two components.
+func cnfSingletons() (*acSpec, error) {
+	us := [][]sim.ID{{c04IDs[0]}, {c04IDs[1]}, {c04IDs[2]}}
+	lib, err := newCNF(us)
+	if err != nil {
+		return nil, err
+	}
+	return &acSpec{kind: "cnf", ids: sortedIDs(c04IDs), lib: lib, nonIdeal: true, desc: fmt.Sprintf("cnf(max-unqualified %v)", us), qualified: func(s map[sim.ID]bool) bool {
+		c := 0
+		for _, id := range c04IDs {
+			if s[id] {
+				c++
+			}
+		}
+		return c >= 2
+	}}, nil
+}
+
+func scenarioDKGSpec(name, proto string, mkSpec func() (*acSpec, error)) *c04Scenario {
+	s := &c04Scenario{name: name, only: []string{"dkg/"}, maxLeaves: 40}
 	s.canon = map[string]func([]byte) ([]byte, error){
 		"dkg/GennaroDKGRound1BROADCAST:":           canonOf[*gennaro.Round1Broadcast[*k256Point, *k256Scalar]](),
 		"dkg/GennaroDKGRound1UNICAST:":             canonOf[*gennaro.Round1Unicast[*k256Point, *k256Scalar]](),
@@ -231,7 +255,7 @@ func scenarioDKG(proto string) *c04Scenario {
 		kit := kitK256()
 		w := rc.Seed.Sub("ac").Rand()
 		_ = w
-		spec, err := genFixedThreshold(2, c04IDs)
+		spec, err := mkSpec()
 		if err != nil {
 			return c04Result{harnessErr: err}
 		}
@@ -431,6 +455,7 @@ func init() {
 	c04Scenarios["session"] = scenarioSession
 	c04Scenarios["gennaro"] = func() *c04Scenario { return scenarioDKG("gennaro") }
 	c04Scenarios["canetti"] = func() *c04Scenario { return scenarioDKG("canetti") }
+	c04Scenarios["gennaro-cnf"] = func() *c04Scenario { return scenarioDKGSpec("gennaro-cnf", "gennaro", cnfSingletons) }
 	c04Scenarios["lindell22-bip340"] = func() *c04Scenario {
 		sc := scenarioSign("lindell22-bip340", flavorL22BIP340, c04IDs, false, 40)
 		sc.canon = map[string]func([]byte) ([]byte, error){
@@ -1030,6 +1055,7 @@ func C04Workloads() []harness.Workload {
 		c04Workload("session", 40),
 		c04Workload("gennaro", 60),
 		c04Workload("canetti", 40),
+		c04Workload("gennaro-cnf", 60),
 		c04Workload("lindell22-bip340", 40),
 		c04Workload("dkls23-bbot", 12),
 		c04Workload("dkls23-softspoken", 12),
